@@ -177,6 +177,14 @@ structure TypeDef where
   name : Bytes
   body : Body
 
+/-- the clauses behind the initializer of a global variable (`, section "s", partition "p", align 8`; read and printed by M-Whole, no meaning in this file): an empty
+    string / a zero alignment is not printed -/
+structure GTail where
+  sect : Bytes := []
+  partition : Bytes := []
+  align : Nat := 0
+  deriving DecidableEq, Repr, Inhabited
+
 structure Global where
   name : Bytes
   isConst : Bool            -- `constant` instead of `global`
@@ -185,6 +193,7 @@ structure Global where
   /-- the optional keywords between `=` and `global` / `constant` (linkage, preemption, visibility, DLL storage class, thread-local model, unnamed_addr,
       externally_initialized), as positions in the keyword list of M-Whole (`Whole.kGLead`), in the order written; no meaning in this file -/
   lead : List Nat := []
+  tail : GTail := {}
 
 structure Mod where
   typedefs : List TypeDef
@@ -194,7 +203,7 @@ structure Mod where
     parts that are read by the readers of this file -/
 inductive Line where
   | typedef (tok : Bytes) (body : Bytes)                      -- `tok = type body`
-  | global (tok : Bytes) (isConst : Bool) (rest : Bytes) (lead : List Nat := [])      -- `tok = [keywords] global|constant rest`, rest = `T V`; the keywords as positions (M-Whole)
+  | global (tok : Bytes) (isConst : Bool) (rest : Bytes) (lead : List Nat := []) (tail : GTail := {})      -- `tok = [keywords] global|constant rest`, rest = `T V`; the keywords as positions (M-Whole)
 
 def sOpaque : Bytes := [111, 112, 97, 113, 117, 101]
 
@@ -204,7 +213,7 @@ def bodyString : Body → Bytes
 
 def printTok (useHex : Int → Bool) (m : Mod) : List Line :=
   m.typedefs.map (fun d => Line.typedef (Enc.typeName d.name) (bodyString d.body)) ++
-  m.globals.map (fun g => Line.global (Enc.globalName g.name) g.isConst (tyString g.ty ++ [32] ++ constIdent useHex g.ty g.init) g.lead)
+  m.globals.map (fun g => Line.global (Enc.globalName g.name) g.isConst (tyString g.ty ++ [32] ++ constIdent useHex g.ty g.init) g.lead g.tail)
 
 /-- asm/type.go getTypeName on the name read after `%` (see LlirModel/Enc.lean) -/
 def respell (n : Bytes) : Bytes := Enc.getTypeName (.name n)
@@ -245,13 +254,13 @@ def decodeBody (s : Bytes) : Option Body :=
     | some (.struct p fs) => some (.struct p (respellTys fs))
     | _ => none                       -- other bodies (type aliases) are outside this fragment
 
-def decodeGlobal (tok : Bytes) (isConst : Bool) (rest : Bytes) (lead : List Nat := []) : Option Global :=
+def decodeGlobal (tok : Bytes) (isConst : Bool) (rest : Bytes) (lead : List Nat := []) (tail : GTail := {}) : Option Global :=
   match Enc.globalIdent tok with
   | .ok (.name n) =>
     (match TyParse.parseTy (tyFuel rest) rest with
      | some (t, 32 :: r1) =>
        (match parseConst (r1.length + 1) t r1 with
-        | some (c, []) => if constTyOK t c then some ⟨n, isConst, respellTy t, respellConst c, lead⟩ else none
+        | some (c, []) => if constTyOK t c then some ⟨n, isConst, respellTy t, respellConst c, lead, tail⟩ else none
         | _ => none)
      | _ => none)
   | _ => none
@@ -262,8 +271,8 @@ def collect : List Line → Option (List TypeDef × List Global)
     match decodeTypedefName tok, decodeBody body, collect rest with
     | some n, some b, some (ts, gs) => some (⟨n, b⟩ :: ts, gs)
     | _, _, _ => none
-  | .global tok k r ld :: rest =>
-    match decodeGlobal tok k r ld, collect rest with
+  | .global tok k r ld tl :: rest =>
+    match decodeGlobal tok k r ld tl, collect rest with
     | some g, some (ts, gs) => some (ts, g :: gs)
     | _, _ => none
 
@@ -327,11 +336,11 @@ def sConstant : Bytes := [32, 61, 32, 99, 111, 110, 115, 116, 97, 110, 116, 32] 
 
 def flattenLine : Line → Bytes
   | .typedef tok body => tok ++ sType ++ body ++ [10]
-  | .global tok k rest _ => tok ++ (if k then sConstant else sGlobal) ++ rest ++ [10]
+  | .global tok k rest _ _ => tok ++ (if k then sConstant else sGlobal) ++ rest ++ [10]
 
 def flatten (ls : List Line) : Bytes :=
   let tys := ls.filter (fun l => match l with | .typedef _ _ => true | _ => false)
-  let gls := ls.filter (fun l => match l with | .global _ _ _ _ => true | _ => false)
+  let gls := ls.filter (fun l => match l with | .global _ _ _ _ _ => true | _ => false)
   let a := (tys.map flattenLine).flatten
   let b := (gls.map flattenLine).flatten
   if a.isEmpty || b.isEmpty then a ++ b else a ++ [10] ++ b
